@@ -1334,6 +1334,21 @@ def _hs_insert(M, fr, n, a):
     for e in hs.items:
         if M.branch(val_eq(M, fr, e, a[1])): return False
     hs.items.append(a[1]); return True
+@reg(r'^std::collections::(HashSet|BTreeSet)::replace$')
+def _hs_replace(M, fr, n, a):
+    # replace(value): the equal element already in the set (if any) is handed back and the new value takes its place
+    hs = D(M, a[0])
+    for i, e in enumerate(hs.items):
+        if M.branch(val_eq(M, fr, e, a[1])):
+            hs.items[i] = a[1]; return some(e)
+    hs.items.append(a[1]); return none()
+@reg(r'^std::collections::(HashSet|BTreeSet)::take$')
+def _hs_take(M, fr, n, a):
+    hs = D(M, a[0])
+    for i, e in enumerate(hs.items):
+        if M.branch(val_eq(M, fr, e, a[1])):
+            hs.items.pop(i); return some(e)
+    return none()
 @reg(r'^std::collections::(HashSet|BTreeSet)::contains$')
 def _hs_contains(M, fr, n, a):
     res = False
